@@ -45,6 +45,14 @@ Inductive tres (A : Type) := TRet (a : A) | TExc (msg : str).
 Arguments TRet {A} a.
 Arguments TExc {A} msg.
 
+(* ---- the call upload_handler.handle_upload(request) as the translator sees it: a `res unit` oracle of the connection.
+   Ok tt = the call returned an awaitable (asyncio.create_task makes a task of it); Err _ msg = the call raised an exception
+   with str() = msg before any awaitable existed (or asyncio.create_task refused what it returned: a TypeError with asyncio's
+   text).  The model's Section variable up_call_fails is this oracle; the exception's class is not modelled (RuntimeError is
+   outside the model, see the translator's docstring). ---- *)
+Definition upcall_of (f : option str) : res unit :=
+  match f with None => Ok tt | Some msg => Err (lit "Exception") msg end.
+
 (* ---- views of a response body (str | bytes | None), used under the corresponding isinstance / truthiness guards ---- *)
 Definition body_truthy (b : body) : bool := match b with BNone => false | BText [] => false | BBytes [] => false | _ => true end.
 Definition body_is_bytes (b : body) : bool := match b with BBytes _ => true | _ => false end.
